@@ -187,6 +187,10 @@ impl CelValue {
         CelError::Runtime(msg.to_owned()).into()
     }
 
+    pub fn overflow_error(op: &str) -> CelValue {
+        CelError::Value(format!("Result of '{}' is out of range", op)).into()
+    }
+
     pub fn binding_error(sym_name: &str) -> CelValue {
         CelError::Binding {
             symbol: sym_name.to_owned(),
@@ -1241,12 +1245,18 @@ impl Add for CelValue {
             match lhs {
                 CelValue::Int(val1) => {
                     if let CelValue::Int(val2) = rhs {
-                        return CelValue::from(val1 + val2);
+                        return match val1.checked_add(val2) {
+                            Some(res) => CelValue::from(res),
+                            None => CelValue::overflow_error("+"),
+                        };
                     }
                 }
                 CelValue::UInt(val1) => {
                     if let CelValue::UInt(val2) = rhs {
-                        return CelValue::from(val1 + val2);
+                        return match val1.checked_add(val2) {
+                            Some(res) => CelValue::from(res),
+                            None => CelValue::overflow_error("+"),
+                        };
                     }
                 }
                 CelValue::Float(val1) => {
@@ -1277,12 +1287,25 @@ impl Add for CelValue {
                 }
                 CelValue::TimeStamp(v1) => {
                     if let CelValue::Duration(v2) = rhs {
-                        return CelValue::from_timestamp(v1 + v2);
+                        return match v1.checked_add_signed(v2) {
+                            Some(res) => CelValue::from_timestamp(res),
+                            None => CelValue::overflow_error("+"),
+                        };
                     }
                 }
                 CelValue::Duration(v1) => match rhs {
-                    CelValue::TimeStamp(v2) => return CelValue::from_timestamp(v2 + v1),
-                    CelValue::Duration(v2) => return CelValue::Duration(v1 + v2),
+                    CelValue::TimeStamp(v2) => {
+                        return match v2.checked_add_signed(v1) {
+                            Some(res) => CelValue::from_timestamp(res),
+                            None => CelValue::overflow_error("+"),
+                        }
+                    }
+                    CelValue::Duration(v2) => {
+                        return match v1.checked_add(&v2) {
+                            Some(res) => CelValue::Duration(res),
+                            None => CelValue::overflow_error("+"),
+                        }
+                    }
                     _ => {}
                 },
                 _ => {}
@@ -1313,12 +1336,18 @@ impl Sub for CelValue {
             match lhs {
                 CelValue::Int(val1) => {
                     if let CelValue::Int(val2) = rhs {
-                        return CelValue::from(val1 - val2);
+                        return match val1.checked_sub(val2) {
+                            Some(res) => CelValue::from(res),
+                            None => CelValue::overflow_error("-"),
+                        };
                     }
                 }
                 CelValue::UInt(val1) => {
                     if let CelValue::UInt(val2) = rhs {
-                        return CelValue::from(val1 - val2);
+                        return match val1.checked_sub(val2) {
+                            Some(res) => CelValue::from(res),
+                            None => CelValue::overflow_error("-"),
+                        };
                     }
                 }
                 CelValue::Float(val1) => {
@@ -1327,13 +1356,28 @@ impl Sub for CelValue {
                     }
                 }
                 CelValue::TimeStamp(v1) => match rhs {
-                    CelValue::Duration(v2) => return CelValue::from_timestamp(v1 - v2),
+                    CelValue::Duration(v2) => {
+                        return match v1.checked_sub_signed(v2) {
+                            Some(res) => CelValue::from_timestamp(res),
+                            None => CelValue::overflow_error("-"),
+                        }
+                    }
                     CelValue::TimeStamp(v2) => return CelValue::from_duration(v1 - v2),
                     _ => {}
                 },
                 CelValue::Duration(v1) => match rhs {
-                    CelValue::TimeStamp(v2) => return CelValue::from_timestamp(v2 - v1),
-                    CelValue::Duration(v2) => return CelValue::from_duration(v1 - v2),
+                    CelValue::TimeStamp(v2) => {
+                        return match v2.checked_sub_signed(v1) {
+                            Some(res) => CelValue::from_timestamp(res),
+                            None => CelValue::overflow_error("-"),
+                        }
+                    }
+                    CelValue::Duration(v2) => {
+                        return match v1.checked_sub(&v2) {
+                            Some(res) => CelValue::from_duration(res),
+                            None => CelValue::overflow_error("-"),
+                        }
+                    }
                     _ => {}
                 },
                 _ => {}
@@ -1364,12 +1408,18 @@ impl Mul for CelValue {
             match lhs {
                 CelValue::Int(val1) => {
                     if let CelValue::Int(val2) = rhs {
-                        return CelValue::from(val1 * val2);
+                        return match val1.checked_mul(val2) {
+                            Some(res) => CelValue::from(res),
+                            None => CelValue::overflow_error("*"),
+                        };
                     }
                 }
                 CelValue::UInt(val1) => {
                     if let CelValue::UInt(val2) = rhs {
-                        return CelValue::from(val1 * val2);
+                        return match val1.checked_mul(val2) {
+                            Some(res) => CelValue::from(res),
+                            None => CelValue::overflow_error("*"),
+                        };
                     }
                 }
                 CelValue::Float(val1) => {
@@ -1409,7 +1459,10 @@ impl Div for CelValue {
                             return CelValue::from_err(CelError::DivideByZero);
                         }
 
-                        return CelValue::from(val1 / val2);
+                        return match val1.checked_div(val2) {
+                            Some(res) => CelValue::from(res),
+                            None => CelValue::overflow_error("/"),
+                        };
                     }
                 }
                 CelValue::UInt(val1) => {
@@ -1454,11 +1507,22 @@ impl Rem for CelValue {
             match lhs {
                 CelValue::Int(val1) => {
                     if let CelValue::Int(val2) = rhs {
-                        return CelValue::from(val1 % val2);
+                        if val2 == 0 {
+                            return CelValue::from_err(CelError::DivideByZero);
+                        }
+
+                        return match val1.checked_rem(val2) {
+                            Some(res) => CelValue::from(res),
+                            None => CelValue::overflow_error("%"),
+                        };
                     }
                 }
                 CelValue::UInt(val1) => {
                     if let CelValue::UInt(val2) = rhs {
+                        if val2 == 0 {
+                            return CelValue::from_err(CelError::DivideByZero);
+                        }
+
                         return CelValue::from(val1 % val2);
                     }
                 }
@@ -1485,7 +1549,10 @@ impl Neg for CelValue {
 
         match self {
             CelValue::Int(val1) => {
-                return CelValue::from(-val1);
+                return match val1.checked_neg() {
+                    Some(res) => CelValue::from(res),
+                    None => CelValue::overflow_error("-"),
+                };
             }
             CelValue::Float(val1) => {
                 return CelValue::from(-val1);
